@@ -477,6 +477,42 @@ def _worklist_closure(ctx, R, rid):
                       % (S, pvar, pvar, S, escapes[0]))
             else:
                 R.ok(rid, "every instance of a parent definition enters `%s`" % S, ga.loc(a))
+    # the same thing said in bulk:  S.update(E) / S |= E  with E (directly or through a local) the instances of a parent definition,
+    # filtered at most by `p not in S`
+    for c in walk_local(ga.node):
+        S = src = None
+        if isinstance(c, ast.Call) and isinstance(c.func, ast.Attribute) and c.func.attr == "update" and len(c.args) == 1:
+            S, src = norm(c.func.value), c.args[0]
+        elif isinstance(c, ast.AugAssign) and isinstance(c.op, ast.BitOr):
+            S, src = norm(c.target), c.value
+        if src is None:
+            continue
+        if isinstance(src, ast.Name):
+            d = reaching_assign(c, src.id)
+            src = d.value if d is not None and isinstance(d, ast.Assign) else src
+        if isinstance(src, ast.Call) and isinstance(src.func, ast.Name) and src.func.id in ("set", "list", "tuple", "frozenset") and len(src.args) == 1:
+            src = src.args[0]
+        if isinstance(src, ast.Attribute) and src.attr == "references":
+            k += 1
+            R.ok(rid, "every instance of a parent definition enters `%s`" % S, ga.loc(c))
+            continue
+        if not (isinstance(src, (ast.ListComp, ast.SetComp, ast.GeneratorExp)) and len(src.generators) == 1 and isinstance(src.generators[0].iter, ast.Attribute)
+                and src.generators[0].iter.attr == "references" and isinstance(src.generators[0].target, ast.Name)):
+            continue
+        g = src.generators[0]
+        k += 1
+        pvar = g.target.id
+        escapes = [] if norm(src.elt) == pvar else ["element `%s`" % short(src.elt, 40)]
+        for t in g.ifs:
+            for alt in alts_of(t, False):
+                if ("in(%s,%s)" % (pvar, S)) not in alt:
+                    escapes.append(short(t, 60))
+        if escapes:
+            R.bad(rid, "%s|ancestor skipped" % ga.key, ga.loc(c),
+                  "the upward walk can leave an instance of the parent definition out of `%s` for a reason other than its already being there (`%s`): "
+                  "the downward search does not descend through it and the occurrences below it are missed" % (S, escapes[0]))
+        else:
+            R.ok(rid, "every instance of a parent definition enters `%s`" % S, ga.loc(c))
     R.count("ancestor insertions in the upward walk", k)
     R.floor("ancestor insertions in the upward walk", 1)
 
@@ -747,7 +783,16 @@ def check_c11(ctx, R):
     if fac is None:
         raise AnalysisError("anchor vanished: HRef.from_parent_and_item")
     src = norm(fac.node)
-    looks = "in flyweight" in src and any(isinstance(r, ast.Return) and r.value is not None and "flyweight[" in norm(r.value) for r in walk_local(fac.node))
+    # the canonical object is what a return hands back, directly or through a local bound once to the table entry
+    once = {}
+    for a in walk_local(fac.node):
+        if isinstance(a, ast.Assign) and len(a.targets) == 1 and isinstance(a.targets[0], ast.Name):
+            once.setdefault(a.targets[0].id, []).append(a.value)
+
+    def from_table(e):
+        return any(("flyweight[" in norm(x)) or (isinstance(x, ast.Name) and len(once.get(x.id, ())) == 1 and "flyweight[" in norm(once[x.id][0]))
+                   for x in ast.walk(e))
+    looks = "in flyweight" in src and any(isinstance(r, ast.Return) and r.value is not None and from_table(r.value) for r in walk_local(fac.node))
     fills = any(isinstance(a, ast.Assign) and norm(a.targets[0]).startswith("flyweight[") for a in walk_local(fac.node))
     order_ok = False
     ctor_args = [c for c in walk_local(fac.node) if isinstance(c, ast.Call) and norm(c.func) == "HRef"]
@@ -859,8 +904,10 @@ def check_c11(ctx, R):
     if sep is None:
         raise AnalysisError("H6: cannot find the separator literal of HRef.name")
     nsrc = norm(nm.node)
-    for need, what in (("'[{}]'", "bus suffix"), ("lower_index +", "bus index base"), ("[:-1]", "top-instance name dropped"), ("is_array", "suffix only for arrays")):
-        if need in nsrc:
+    from ..strings import templates_in, bracketed_holes
+    suffix = [h for _, t in templates_in(nm.node) for h in bracketed_holes(t)]
+    for need, what in (("[<index>]", "bus suffix"), ("lower_index +", "bus index base"), ("[:-1]", "top-instance name dropped"), ("is_array", "suffix only for arrays")):
+        if (suffix if what == "bus suffix" else need in nsrc):
             R.ok("H6", "HRef.name: %s" % what, nm.loc())
         else:
             R.bad("H6", "%s|%s" % (nm.key, what), nm.loc(), "HRef.name no longer has `%s` (%s): references are reported under names the queries do not look for" % (need, what))
@@ -883,7 +930,8 @@ def check_c11(ctx, R):
                         R.ok("H6", "%s: separator and top slice" % fn, f.loc(j))
                 if "wire" in fn or "pin" in src.split("def ")[1][:40] or "cable.wires" in src or "port.pins" in src:
                     if "cable.wires" in src or "port.pins" in src:
-                        if "'{}[{}]'" in src and "lower_index +" in src and ("is_scalar" in src or "is_array" in src):
+                        named = [t_ for _, t_ in templates_in(f.node) if bracketed_holes(t_) and t_.index(bracketed_holes(t_)[0]) >= 2]
+                        if named and "lower_index +" in src and ("is_scalar" in src or "is_array" in src):
                             R.ok("H6", "%s: bus suffix" % fn, f.loc())
                         else:
                             R.bad("H6", "%s|bus-suffix" % f.key, f.loc(), "%s does not build `name[lower_index + position]` for array bundles only, as HRef.name does" % fn)
